@@ -18,6 +18,8 @@ MANIFEST = dict(
     engines=[dict(name="E-lex", path="harness/src/eng_lex.rs + coq/extract/eng_lex.ml",
                   kind_free_text="differential: GoldLexer::lex vs extracted Coq model, complete token and error lists")],
 )
+MANIFEST["text"] += " Fourth session: Model/Unlex.v prints lexeme lists; C05_lex_unlex (for ALL printable lexeme lists lex(unlex ts) gives ts back at the printer's offsets without lexical error), C05_lexeme_context_free, C05_lexemes_printable (the lexer's image is exactly the printable lexemes), C05_relex_normal_form; both statements are also evaluated on the real lexer (3,000 printed lists, 20,000 re-lexed prints per quick run). The lexer model's token END is start column + number of characters since /repo f444e80."
+
 ASSUMPTIONS = [
     "offsets and columns are in Unicode scalar values (chars().enumerate()), as the lexer defines them",
     "keyword table and token kinds are regenerated from /repo/src/lexer on every run by translators T1/T2",
